@@ -120,7 +120,7 @@ func runHelper(name, params, streams string) (result string) {
 	for i, r := range res {
 		parts[i] = showInts(r)
 	}
-	out := "-"
+	out := "_"
 	if len(parts) > 0 {
 		out = strings.Join(parts, ";")
 	}
